@@ -118,7 +118,7 @@ def guarded_prefix_insertion(ctx, clause):
                     if isinstance(cur, ast.If) and ".values()" in norm(cur.test) and isinstance(cur.test, ast.Compare) \
                             and isinstance(cur.test.ops[0], ast.NotIn):
                         ok, why = True, "guarded by `%s`" % norm(cur.test)
-            obs.append(Ob(clause, "R-GUARD", "R-GUARD|prefix-insertion|%s|%s" % (f.short, norm(x.targets[0])[:50]), f.loc(x), ok,
+            obs.append(Ob(clause, "R-GUARD", "R-GUARD|prefix-insertion|%s|%s" % (f.short, f.key(x.targets[0])[:50]), f.loc(x), ok,
                           why if ok else "%s: two namespaces can end up under one prefix (non-functional prefix map)" % why,
                           note=not ctx.reachable(f)))
     return obs, n
